@@ -43,8 +43,10 @@ RULE = ("exhaustive: (A) every history of <= 2 (quick) / <= 3 (thorough) single-
         "results per event) and evaluator steps (several vectors in one call), with NaN injections, realization_min_success=0, "
         "maximisation and/or positive scaling of the objective, scaling of the non-linear constraint, trackers on subsets of the "
         "steps; nested optimizations (trackers on the outer and on the nested plan, the nested plan also run stand-alone first); "
-        "BasicOptimizer (tolerance None/0/positive/defaulted, run twice, aborted through the abort callback) whose reported result is "
-        "compared with the recomputation over the recorded events.  Non-trivial = some tracker ends up holding a result and at least "
+        "BasicOptimizer objects run 1-4 times (tolerance None/0/positive/defaulted; runs in which every evaluation fails, every "
+        "result is infeasible, or the abort callback fires before the first / after k evaluations, in any order with normal runs): "
+        "results (identity or None), variables and exit code are read after EVERY run, results compared with the model (fresh "
+        "tracker per run) and with the recomputation over the recorded events.  Non-trivial = some tracker ends up holding a result and at least "
         "two results were delivered; distinct = distinct case dictionaries.")
 ASSUMPTIONS = [
     "a Results object is seen by the tracker only through isinstance(FunctionResults), .functions is None, "
@@ -235,17 +237,26 @@ def _eval_step(rng, base=None):
     return s
 
 
-_FORCED = [("differential_evolution", True), ("slsqp", None), ("differential_evolution", False), ("nelder-mead", None)]
+# run sequences of ONE BasicOptimizer object: a later run that tracks nothing must report nothing
+BASIC_SCRIPTS = [["normal"], ["normal"], ["abort2"], ["abort5"], ["normal", "normal"], ["normal", "fail"], ["normal", "abort0"],
+                 ["normal", "infeasible"], ["normal", "fail", "normal", "abort0"], ["fail", "normal", "infeasible"],
+                 ["abort0", "normal", "abort0"], ["normal", "abort2", "fail", "normal"], ["normal", "infeasible", "abort0"]]
+_FORCED = [("differential_evolution", True, ["normal", "fail", "normal", "abort0"]), ("slsqp", None, ["normal", "infeasible"]),
+           ("differential_evolution", False, ["normal", "infeasible", "abort0"]), ("nelder-mead", None, ["normal", "abort0", "normal"])]
 
 
 def _rand_plan(rng, basic, force=None):
-    method, parallel = force if force is not None else (None, None)
+    method, parallel, script = force if force is not None else (None, None, None)
     if basic:
         case = {"kind": "basic", "steps": [_one_step(rng, method, parallel)],
                 "handlers": [["best", rng.choice([TOL, TOL, 1e-3, 0.25, 0.0, None]), [0], 0, rng.choice(["", "d"])]],
-                "runs": rng.choice([1, 1, 2]), "abort_after": rng.choice([None, None, None, 2, 5])}
-        if force is not None and parallel:
-            case["steps"][0]["constraint"] = True
+                "script": list(rng.choice(BASIC_SCRIPTS))}
+        if force is not None:
+            case["script"] = list(script)
+            if method in ("slsqp", "differential_evolution"):
+                case["steps"][0]["constraint"] = True
+                if case["handlers"][0][1] is None:
+                    case["handlers"][0][1] = TOL
         return case
     steps = [_one_step(rng, method, parallel)]
     for _ in range(rng.choice([0, 1, 1, 2])):
@@ -696,12 +707,24 @@ def _run_nested(case):
     return {"history": rec.history, "held": rec.held, "exits": exits, "handlers": effective}
 
 
+def _basic_script(case):
+    """Run modes of one BasicOptimizer object, one per run(): normal | fail (every evaluation NaN) | infeasible (every
+    constraint value far outside, needs a constraint and a tolerance) | abort<k> (abort callback fires after k evaluations)."""
+    if "script" in case:
+        return list(case["script"])
+    script = ["normal"] * int(case.get("runs", 1))
+    if case.get("abort_after") is not None:
+        script[0] = f"abort{int(case['abort_after'])}"
+    return script
+
+
 def _run_basic(case):
     import inspect
     import warnings
     import numpy as np
     from ropt.config.enopt import EnOptConfig
     from ropt.enums import EventType
+    from ropt.evaluator import EvaluatorResult
     from ropt.plan import BasicOptimizer
     warnings.simplefilter("ignore")
     step = case["steps"][0]
@@ -710,11 +733,18 @@ def _run_basic(case):
     ident = _Ident()
     history = []
     tval = EventType.FINISHED_EVALUATION.value
+    what, tol, sources, _, flags = _hspec(case["handlers"][0])
+    mode = {"now": "normal", "abort": None}
+
+    def evaluator(variables, ctx):
+        out = evaluate(variables, ctx, counter)
+        if mode["now"] == "fail" or (mode["now"] == "infeasible" and (out.constraints is None or tol is None)):
+            return EvaluatorResult(objectives=np.full_like(out.objectives, np.nan), constraints=out.constraints)
+        if mode["now"] == "infeasible":
+            return EvaluatorResult(objectives=out.objectives, constraints=out.constraints + 16.0)
+        return out
 
     def callback(results, transformed):
-        # a BasicOptimizer that is run again registers its observers again: one event may be reported twice
-        if results and any(results[0] is u for u in ident.users):
-            return
         items = []
         for k, u in enumerate(results):
             t = transformed[k] if transformed else None
@@ -722,36 +752,34 @@ def _run_basic(case):
         history.append(["emit", {"type": "FINISHED_EVALUATION", "tval": tval, "src": 0, "path": [0], "has_results": True,
                                  "has_transformed": bool(transformed), "items": items}])
 
-    what, tol, sources, _, flags = _hspec(case["handlers"][0])
     d_tol = inspect.signature(BasicOptimizer.__init__).parameters["constraint_tolerance"].default
     kw = {"transforms": transforms, "constraint_tolerance": tol}
     if "d" in flags and tol == d_tol and tol is not None:
         del kw["constraint_tolerance"]
-    opt = BasicOptimizer(EnOptConfig.model_validate(config, context=transforms), lambda v, c: evaluate(v, c, counter), **kw)
+    opt = BasicOptimizer(EnOptConfig.model_validate(config, context=transforms), evaluator, **kw)
     opt.set_results_callback(callback, transformed=True)
-    abort = {"k": case.get("abort_after")}
-    if abort["k"] is not None:
-        opt.set_abort_callback(lambda: abort["k"] is not None and counter[0] >= abort["k"])
-    held, exits, var_ok, ghost = [], [], True, False
-    for run in range(int(case.get("runs", 1))):
-        if run > 0:
-            history.append(["put", None])        # BasicOptimizer.run builds a fresh plan: same as a reset tracker
-            held.append("unobserved")
-            counter[0] = 0
-            abort["k"] = None
+    opt.set_abort_callback(lambda: mode["abort"] is not None and counter[0] >= mode["abort"])
+    held, exits, var_ok, exit_ok = [], [], True, True
+    for m in _basic_script(case):
+        # BasicOptimizer.run builds a fresh plan and tracker: the same as a reset tracker.  The observation of a run is
+        # attached to its last operation -- the reset itself when the run delivers nothing.
+        history.append(["put", None])
+        held.append("unobserved")
+        counter[0] = 0
+        mode["now"] = "normal" if m.startswith("abort") else m
+        mode["abort"] = int(m[5:]) if m.startswith("abort") else None
         before = len(history)
         opt.run()
         res = opt.results
         var_ok = var_ok and ((opt.variables is None) if res is None else
                              (opt.variables is not None and np.array_equal(opt.variables, res.evaluations.variables)))
         held.extend(["unobserved"] * (len(history) - before))
-        if len(history) > before:
-            held[-1] = ident.of(res)
-        elif res is not None:
-            ghost = True
+        held[-1] = ident.of(res)
         exits.append(opt.exit_code.name)
-    return {"history": history, "held": [held], "exits": exits, "variables_ok": bool(var_ok),
-            "result_without_events": bool(ghost), "handlers": [[what, tol, sources, 0]]}
+        if mode["abort"] == 0 and opt.exit_code.name != "USER_ABORT":
+            exit_ok = False
+    return {"history": history, "held": [held], "exits": exits, "variables_ok": bool(var_ok), "exit_ok": bool(exit_ok),
+            "result_without_events": False, "handlers": [[what, tol, sources, 0]]}
 
 
 def run_impl(case):
@@ -872,14 +900,18 @@ def oracle(case, obs):
             return {"clause": "basic-optimizer-variables-not-of-reported-result", "detail": None}
         if obs["result_without_events"]:
             return {"clause": "basic-optimizer-reports-undelivered-result", "detail": None}
+        if not obs.get("exit_ok", True):
+            return {"clause": "basic-optimizer-exit-code-of-aborted-run", "detail": obs["exits"]}
     for h, (what, tol, sources, plan) in enumerate(_effective(case, obs)):
         cands = {}       # id -> optimizer-domain objective (best)
         known = {}       # id -> optimizer-domain objective of every candidate this tracker was ever shown
         alt = None       # (id, other possible comparison objective) of an object placed with Plan.set
         seen = {}        # id -> why a delivered result is not a candidate
+        stale = set()    # candidates delivered before the latest reset
         last = None
         for k, op in enumerate(obs["history"]):
             if op[0] == "put":
+                stale.update(cands)
                 cands, last, alt = {}, None, None
                 if op[1] is not None:
                     # Plan.set is outside the property text: the object is compared through its own objective, or --
@@ -916,6 +948,9 @@ def oracle(case, obs):
                 if got != last:
                     return {"clause": "last-is-not-most-recent-feasible-function-result", "detail": {**where, "expected": last}}
                 continue
+            if got is not None and got not in cands and got in stale:
+                return {"clause": "best-holds-result-from-before-the-reset" + ("-or-an-earlier-run" if case["kind"] == "basic" else ""),
+                        "detail": where}
             if not cands:
                 if got is not None:
                     return {"clause": "best-holds-" + seen.get(got, "unknown-object"), "detail": where}
@@ -961,6 +996,7 @@ def features(case, obs):
             "gradients": min(2, sum(1 for it in items if not it["u"]["isfun"])),
             "largest_batch": min(batch, 4), "batch_mixes_valid_and_invalid": mixed,
             "tolerances": ",".join(sorted({"None" if h[1] is None else "0" if h[1] == 0 else "pos" for h in _effective(case, obs)})),
+            "basic_runs": "-" if case["kind"] != "basic" else ">".join(_basic_script(case)),
             "maximize": any(s.get("maximize") for s in steps),
             "scaled": any(s.get("oscale", 1.0) != 1.0 or s.get("cscale", 1.0) != 1.0 for s in steps),
             "methods": ",".join(sorted({("evaluator" if s.get("kind") == "evaluator" else s["method"] + ("/parallel" if s.get("parallel") else ""))
